@@ -195,7 +195,9 @@ Verdict(e) ==
     ELSE IF e.ev = "Config" THEN (IF WellFormed(e) THEN "ok" ELSE "MalformedConfig")
     ELSE IF cur.ev # "Config" THEN "NoConfig"
     ELSE IF e.ev = "Prefix" THEN
-        IF e.out # "ok" THEN "ok"                   \* a raised call carries no obligation (counted by the harness)
+        \* a raised call carries no obligation (counted by the harness) -- except for C14: a warm start with a zero budget
+        \* or fixed modes is a request the property speaks about; only a numerical break-down (LinAlgError) is excused
+        IF e.out # "ok" THEN (IF Prop = "C14" /\ e.exc # "LinAlgError" THEN "WarmStartRequestRaised" ELSE "ok")
         ELSE IF e.malformed THEN "ReturnedObjectIsNotADecomposition"   \* pieces that do not even fit together
         ELSE CASE Prop = "C06" -> V06(e)
                [] Prop = "C07" -> V07(e)
